@@ -19,6 +19,10 @@ pub struct BlockS {
     /// a second `{{ super() }}` at the end of the block body (only with `calls_super`)
     #[serde(default)]
     pub super_twice: bool,
+    /// a call of another function (`range`) textually before `{{ super() }}`: the block writes `01`
+    /// first (only with `calls_super`)
+    #[serde(default)]
+    pub call_before_super: bool,
 }
 
 #[derive(Clone, Debug, Default, Serialize, Deserialize, PartialEq, Eq, Hash)]
@@ -57,8 +61,12 @@ impl TplS {
         if b.in_filter {
             out.push_str("{% filter upper %}");
         }
-        out.push_str(&format!("{{% block {} %}}[{}@{}:", b.name, b.name, mark(&self.name)));
+        // the marker carries the tag too, so that a re-registered version has different block bodies
+        out.push_str(&format!("{{% block {} %}}[{}@{}{}:", b.name, b.name, mark(&self.name), mark(&self.tag)));
         if b.calls_super {
+            if b.call_before_super {
+                out.push_str("{% for i in range(end=2) %}{{ i }}{% endfor %}");
+            }
             out.push_str("{{ super() }}");
         }
         for i in &b.includes {
